@@ -138,6 +138,18 @@ def main(argv):
     # process-wide state — interned LazyLocks, FUNCTION_CALLS statistics, allocator — is shared)
     dirty = es.rust_eval(h, list(reversed(progs)))
     dirty = list(reversed(dirty))
+    # a process that dies (allocation failure after tens of thousands of evaluations in one process: the
+    # library's process-wide call statistics only grow) takes the rest of its batch with it and the
+    # death can be attributed to a neighbouring line: every program that any run reports as ABORT / NOTRUN
+    # is evaluated again ALONE in a fresh process, and only that result counts (a program that kills
+    # the process when alone is still reported).  Found by the thorough tier only (40 000 programs
+    # per process); the quick tier never met it.
+    died = sorted({i for r in runs + [dirty] for i, o in enumerate(r) if o.startswith(("ABORT", "NOTRUN"))})
+    for i in died:
+        alone = es.rust_eval(h, [progs[i]])[0]
+        for r in runs + [dirty]:
+            if r[i].startswith(("ABORT", "NOTRUN")):
+                r[i] = alone
     nondet = 0
     for i, p in enumerate(progs):
         outs = {r[i] for r in runs} | {dirty[i]}
@@ -214,7 +226,7 @@ def main(argv):
         i, r, m = mism[0]
         res.tie_broken("correspondence C02/EVAL: model and implementation disagree on %d of %d programs" % (len(mism), n_prog),
                        "first: %r\nimpl : %s\nmodel: %s" % (progs[i], r, m))
-    res.streams["DETERMINISM"] = {"programs": n_prog, "wide_builtin_programs": len(wide), "processes": nproc, "dirty_heap_run": True, "cli_pairs": cli_n,
+    res.streams["DETERMINISM"] = {"programs": n_prog, "re_evaluated_alone_after_a_process_death": len(died), "wide_builtin_programs": len(wide), "processes": nproc, "dirty_heap_run": True, "cli_pairs": cli_n,
                                   "nondeterministic": nondet + cli_diff, "model_agree": agree, "mismatches": len(mism),
                                   "skipped_unmodelled": skipped, "parser_rejected": rejected,
                                   "generator_node_histogram": g.stats}
